@@ -819,6 +819,8 @@ def _run(sc, S, obs):
 
         return task, init, exit_
 
+    other = {}          # a second, independent pool of the same process (op 'other_pool')
+    has_other = any(op['op'] == 'other_pool' for op in sc['ops'])
     try:
         for opi, op in enumerate(sc['ops']):
             o = {'op': op['op'], 't0': round(S.now - S.t0, 6), 'trace_i0': len(S.trace)}
@@ -853,6 +855,8 @@ def _run(sc, S, obs):
                 elif kind == 'sleep':
                     sim.time_shim.sleep(op['d'])
                     o['outcome'] = 'ok'
+                elif kind == 'other_pool':
+                    _do_other_pool(op, o, other, S)
                 elif kind == 'kill_idle':
                     w = pool._workers[op['victim']]
                     sim.sim_kill(w.pid, sim.SIGKILL)
@@ -870,8 +874,9 @@ def _run(sc, S, obs):
             o['t1'] = round(S.now - S.t0, 6)
             o['trace_i1'] = len(S.trace)
             o['main_points_end'] = S.threads[0].points
-            if kind in ('map', 'map_unordered', 'imap', 'imap_unordered') and not op.get('ret'):
-                # (with op['ret'] results are not invertible to task indices: no protocol trace for such a call)
+            if kind in ('map', 'map_unordered', 'imap', 'imap_unordered') and not op.get('ret') and not has_other:
+                # (with op['ret'] results are not invertible to task indices: no protocol trace for such a call; with a second pool
+                # at work the trace holds the events of both)
                 evs, failed = extract_proto(S.trace, o['trace_i0'], o['trace_i1'], op)
                 if failed or o.get('outcome') != 'ok' or op.get('consume', 'all') != 'all':
                     # after a failure / an abandoned lazy call: every instance drops what it holds, queues are drained
@@ -902,6 +907,18 @@ def _run(sc, S, obs):
             o['instances_alive'] = [i for i, t in enumerate(S.threads) if t.role.startswith('Worker-') and t.started and not t.done]
     finally:
         t_exit0 = S.now
+        if other.get('pool') is not None:
+            try:
+                S.role_prefix = 'B:'
+                if other.get('gen') is not None:
+                    other['gen'].close()
+                other['pool'].__exit__(None, None, None)
+            except (sim.Stuck, sim.SimAbort):
+                raise
+            except BaseException as e:  # noqa
+                obs['other_pool_exit'] = repr(e)[:200]
+            finally:
+                S.role_prefix = ''
         try:
             pool.__exit__(None, None, None)
             obs['exit_outcome'] = 'ok'
@@ -930,6 +947,46 @@ def _run(sc, S, obs):
         obs['sigint_handler_after'] = repr(S.mainproc.handlers.get(sim.SIGINT))
         obs['tqdm_lock_same'] = std_tqdm.get_lock() is lock_before
         obs['procs_alive'] = sorted(p.name for p in S.procs.values() if p is not S.mainproc and not p.killed and p.main_st is not None and not p.main_st.done)
+
+
+def _other_task(x):
+    sim.time_shim.sleep(0.01 + (x % 3) * 0.01)
+    return x * 7 + 1
+
+
+def _do_other_pool(op, o, other, S):
+    """a second WorkerPool of the same process, used through a lazy call that is consumed bit by bit in between the operations
+    of the pool under test: {'do': 'open', n_jobs, n, kind, lifespan} / {'do': 'take', 'k'} / {'do': 'finish'}.  Its results
+    must be right as well, and it must not be disturbed by what happens to the other pool."""
+    from mpire import WorkerPool
+    S.role_prefix = 'B:'
+    try:
+        if op['do'] == 'open':
+            other['pool'] = WorkerPool(op.get('n_jobs', 4), start_method=op.get('start_method', 'fork'))
+            other['kind'] = op.get('kind', 'imap_unordered')
+            other['n'] = op.get('n', 20)
+            other['got'] = []
+            kw = {'chunk_size': 1}
+            if op.get('lifespan'):
+                kw['worker_lifespan'] = op['lifespan']
+            other['gen'] = getattr(other['pool'], other['kind'])(_other_task, range(other['n']), **kw)
+            other['it'] = iter(other['gen'])
+        elif op['do'] == 'take':
+            for _ in range(op.get('k', 1)):
+                try:
+                    other['got'].append(next(other['it']))
+                except StopIteration:
+                    break
+        elif op['do'] == 'finish':
+            other['got'] += list(other['it'])
+            other['gen'] = None
+            want = [x * 7 + 1 for x in range(other['n'])]
+            if (other['got'] if other['kind'] == 'imap' else sorted(other['got'])) != want:
+                o['other_wrong'] = {'got': other['got'][:30], 'expected': want[:30]}
+        o['outcome'] = 'ok'
+        o['other_got'] = len(other.get('got', []))
+    finally:
+        S.role_prefix = ''
 
 
 def _make_input(op, log):
